@@ -1,7 +1,7 @@
 from pulser.backend import EmulatorBackend, Results, BitStrings
 from emu_sv.sv_config import SVConfig
 from emu_sv.sv_backend_impl import SVBackendImpl
-from emu_base import PulserData, SequenceData
+from emu_base import PulserData, SequenceData, HamiltonianType
 
 
 class SVBackend(EmulatorBackend):
@@ -37,5 +37,11 @@ class SVBackend(EmulatorBackend):
 
     @staticmethod
     def _run_from_sequence_data(sequence_data: SequenceData, config: SVConfig) -> Results:
+        if sequence_data.hamiltonian_type != HamiltonianType.Rydberg or sequence_data.dim != 2:
+            raise NotImplementedError(
+                "emu-sv only emulates two-level atoms with the Rydberg (ising) interaction, "
+                f"got {sequence_data.hamiltonian_type.name} with {sequence_data.dim} levels "
+                "(XY/microwave sequences and leakage are supported by emu-mps)."
+            )
         impl = SVBackendImpl(config, sequence_data)
         return impl._run()
